@@ -214,6 +214,7 @@ class Program:
         paths = self._unit_paths()
         if not paths:
             raise AnalysisError("no python units found under %s" % self.root)
+        parsed = []
         for modname, path, pkg in paths:
             with open(path, encoding="utf-8") as f:
                 src = f.read()
@@ -221,9 +222,25 @@ class Program:
                 tree = ast.parse(src, filename=path)
             except SyntaxError as e:
                 raise AnalysisError("unit does not parse: %s: %s" % (path, e))
-            if KNOWN is not None and not os.environ.get("VERIF_NO_NORMALISE"):
+            parsed.append((modname, path, pkg, src, tree))
+        normalise = KNOWN is not None and not os.environ.get("VERIF_NO_NORMALISE")
+        idents = {}
+        if normalise:
+            for modname, path, pkg, src, tree in parsed:
+                ids = set()
+                for n in ast.walk(tree):
+                    if isinstance(n, ast.Name):
+                        ids.add(n.id)
+                    elif isinstance(n, ast.Attribute):
+                        ids.add(n.attr)
+                    elif isinstance(n, ast.alias):
+                        ids.add(n.name.split(".")[-1])
+                idents[modname] = ids
+        for modname, path, pkg, src, tree in parsed:
+            if normalise:
                 from .inline import normalise_module
-                tree, notes = normalise_module(tree, modname, KNOWN[0], KNOWN[1])
+                ext = set().union(*[v for k, v in idents.items() if k != modname]) if idents else set()
+                tree, notes = normalise_module(tree, modname, KNOWN[0], KNOWN[1], ext)
                 if notes:
                     self.normalised.setdefault(modname, []).extend(notes)
             rel = os.path.relpath(path, self.root)
